@@ -407,6 +407,7 @@ def enter_world(root, sc, faults=None, record_events=True):
     sim = rt.Sim(root, sc.get("faults", []) if faults is None else faults, sc.get("listing_seed", 0), record_events)
     sim.fifo_content = dict(w.get("fifo_content", {}))
     sim.fifo_one_shot = bool(w.get("fifo_one_shot"))
+    sim.locale_encoding = w.get("locale")
     rt.CUR = sim
     rt.install_seams()
     return sim
